@@ -417,16 +417,23 @@ def run_history(fmt: str, eps: int, history: list, inspect_all=False) -> dict:
                 before = D.snapshot(root)
                 import os
                 cwd = os.getcwd()
-                # the same location spelled in four ways
+                # the same location spelled in seven ways
                 spellings = [("Path", lambda: root),
                              ("str", lambda: str(root)),
                              ("trailing slash", lambda: str(root) + "/"),
-                             ("relative", lambda: root.name)]
+                             ("relative", lambda: root.name),
+                             ("dot-dot", lambda: str(root / "train" / "..")),
+                             ("home-relative", lambda: "~/" + root.name),
+                             ("home-relative Path",
+                              lambda: Path("~") / root.name)]
+                home = os.environ.get("HOME")
                 for sname, spell in spellings:
                     try:
                         if sname == "relative":
                             os.chdir(root.parent)
-                        D.create(spell(), fmt=fmt, eps=eps)
+                        if sname.startswith("home"):
+                            os.environ["HOME"] = str(root.parent)
+                        D.create(spell(), fmt=fmt, eps=eps, hashes=hashes)
                         out["violations"].append(
                             ("C08", "create-accepted",
                              f"Dataset.create on an existing dataset (path "
@@ -437,6 +444,10 @@ def run_history(fmt: str, eps: int, history: list, inspect_all=False) -> dict:
                         pass
                     finally:
                         os.chdir(cwd)
+                        if home is None:
+                            os.environ.pop("HOME", None)
+                        else:
+                            os.environ["HOME"] = home
                     if D.snapshot(root) != before:
                         out["violations"].append(
                             ("C08", "create-changed",
